@@ -123,8 +123,10 @@ pub async fn transfer_file_to_remote(
     let touch = mtime.map_or(String::new(), |t| format!(" && touch -d @{t} $'{escaped}'"));
     let mut child = tokio::process::Command::new("ssh")
         .arg(host)
+        // `cat` exits 0 on a premature end of input (the sender died mid-stream), so
+        // the staged file is renamed into place only if it has the full length.
         .arg(format!(
-            "cat > $'{tmp_escaped}' && mv -f $'{tmp_escaped}' $'{escaped}'{touch}"
+            "cat > $'{tmp_escaped}' && [ \"$(wc -c < $'{tmp_escaped}')\" -eq {file_size} ] && mv -f $'{tmp_escaped}' $'{escaped}'{touch}"
         ))
         .stdin(std::process::Stdio::piped())
         .stdout(std::process::Stdio::null())
